@@ -323,31 +323,51 @@ def codeStr (prog : List Stmt) : String :=
   | some code => "(code" ++ String.join (code.map fun i => " " ++ instrStr i) ++ ")"
   | none => "oof"
 
+/-- a case: a stand-alone program, or `(wrap kind P T)` — `P` through another entry form with the
+tail `T` (see `harness/src/bin/c03_wrap.inc`); `discard` = the output of `P` is thrown away -/
+structure Case where
+  prog : List Stmt
+  tail : List Stmt := []
+  discard : Bool := false
+
+def toCase : SExp → Option Case
+  | .list [.atom "wrap", .atom kind, p, t] =>
+    match toBlock p, toBlock t with
+    | some p, some t => some { prog := p, tail := t, discard := !(kind == "include" || kind == "expr") }
+    | _, _ => none
+  | x => (toBlock x).map fun p => { prog := p }
+
+def showRes : MJ.Eval.Res String → String
+  | .ok out => s!"ok:{hexOf out}"
+  | .error e => s!"err:{errName e}"
+
 def handle (line : String) : String :=
   match line.splitOn "\t" with
   | [id, ctx, prog] =>
-    match (parseSExp ctx).bind toCtx, (parseSExp prog).bind toBlock with
-    | some ctx, some prog =>
+    match (parseSExp ctx).bind toCtx, (parseSExp prog).bind toCase with
+    | some ctx, some c =>
+      let whole := c.prog ++ c.tail
       -- generated programs need a few hundred units; unbounded macro recursion shows up as FUEL
-      let res := match renderTemplate 4000 ctx prog with
-        | .ok out => s!"ok:{hexOf out}"
-        | .error e => s!"err:{errName e}"
+      let res := showRes (if c.discard then renderAfter 4000 ctx c.prog c.tail else renderTemplate 4000 ctx whole)
+      let boundary := match MJ.Compile.compileTemplate c.prog with
+        | some code => code.length
+        | none => 0
       -- the model VM on the model code (stage 2): must agree with `exec` and with the engine
-      let vm := match MJ.Compile.compileTemplate prog with
+      let vm := match MJ.Compile.compileTemplate whole with
         | none => "-"
-        | some code => match MJ.Vm.renderCode 200000 ctx code with
+        | some code =>
+          match (if c.discard then MJ.Vm.renderCodeAfter 200000 ctx code boundary else MJ.Vm.renderCode 200000 ctx code) with
           | .ok out => s!"ok:{hexOf out}"
           | .error .outOfFragment => "-"      -- macro instructions: see the extended VM below
           | .error e => s!"err:{errName e}"
       -- the extended model VM (macros, calls, live loop object) on the model code
-      let vmM := match MJ.Compile.compileTemplate prog with
+      let vmM := match MJ.Compile.compileTemplate whole with
         | none => "-"
-        | some code => match MJ.VmM.renderCodeM 4000 ctx code with
-          | .ok out => s!"ok:{hexOf out}"
-          | .error e => s!"err:{errName e}"
+        | some code =>
+          showRes (if c.discard then MJ.VmM.renderCodeAfterM 4000 ctx code boundary else MJ.VmM.renderCodeM 4000 ctx code)
       -- is the program in the fragment for which the refinement theorem is proved?
-      let frag := if MJ.Compile.simpleBlock false prog then "frag3" else "-"
-      s!"{id}\t{res}\t{codeStr prog}\t{vm}\t{frag}\t{vmM}"
+      let frag := if MJ.Compile.simpleBlock false whole then "frag3" else "-"
+      s!"{id}\t{res}\t{codeStr whole}\t{vm}\t{frag}\t{vmM}"
     | none, _ => s!"{id}\tbad-case:ctx"
     | _, none => s!"{id}\tbad-case:prog"
   | _ => "?\tbad-case:fields"
